@@ -66,6 +66,68 @@ def _contexts(f, name):
     return res
 
 
+# (function, parameter, properties, contract): 64-bit amounts.  An amount is an unsigned quantity up to 2^64 - 1; reading it
+# through a signed type (`int64_t sv = (int64_t)value[i]`) computes v - 2^64 for v >= 2^63 (C08-h).  sx drops same-width
+# integral casts, so the rule looks at what receives the amount: no variable of a signed integer type is initialised or
+# assigned from an expression that carries the amount (comparisons and truth values carry nothing).
+AMOUNT_PARAMS = [
+    ("secp256k1_pedersen_blind_generator_blind_sum", "value", {"C08"}, "value[i]: the i-th 64-bit amount"),
+    ("secp256k1_pedersen_commit", "value", {"C08"}, "value: the committed 64-bit amount"),
+    ("secp256k1_pedersen_ecmult", "value", {"C08"}, "value: the committed 64-bit amount"),
+]
+_CMP = ("==", "!=", "<", ">", "<=", ">=", "&&", "||")
+
+
+def _carries(e, names):
+    """e carries the value of one of `names` (not merely a comparison / truth value of it)."""
+    k = kind(e)
+    if k is None:
+        return False
+    if k == "var":
+        return e[1] in names
+    if k == "bool" or (k == "un" and e[1] == "!") or (k == "bin" and e[1] in _CMP):
+        return False
+    if k == "call":
+        return False
+    if k == "cond":
+        return _carries(e[2], names) or _carries(e[3], names)
+    return any(_carries(c, names) for c in children(e))
+
+
+def amount_obligations(prog):
+    if not _carries(["bin", "+", ["var", "value"], ["int", "1", 64]], {"value"}) or _carries(["bin", "<", ["var", "value"], ["int", "0", 64]], {"value"}):
+        raise AnalysisBroken("R-ARGS: the positive control of the amount clause is not matched")
+    obs = []
+    for (fn, p, props, why) in AMOUNT_PARAMS:
+        f = prog.fn(fn)
+        if p not in f.param_index:
+            raise AnalysisBroken("R-ARGS: parameter %s of %s vanished" % (p, fn))
+        tainted, bad, nrecv = {p}, [], 0
+        for _ in range(4):
+            bad, nrecv = [], 0
+            for el in f.elems():
+                cands = [x for x in walk(el.e) if kind(x) == "assign"]
+                if kind(el.e) == "decls":
+                    cands += [["assign", "=", ["var", d[1]], d[2]] for d in el.e[1:] if d[2] is not None and kind(d[2]) != "init"]
+                for x in cands:
+                    t = strip(x[2])
+                    if kind(t) != "var" or not _carries(x[3], tainted):
+                        continue
+                    v = f.vars.get(t[1]) or {}
+                    if "int_bits" not in v:
+                        continue
+                    nrecv += 1
+                    if v["signed"]:
+                        bad.append((el.loc, t[1], show(x)[:70]))
+                    else:
+                        tainted.add(t[1])
+        obs.append(Obligation("R-ARGS", "R-ARGS:amount:%s:%s" % (fn, p), bad[0][0] if bad else f.loc, fn,
+                              "%s is an unsigned 64-bit amount (%s): it is never read through a signed integer type" % (p, why), not bad,
+                              "; ".join("signed variable %s receives the amount in `%s` at %s" % (b[1], b[2], b[0]) for b in bad)
+                              or "%d integer variables receive the amount, all unsigned" % nrecv, props=props))
+    return obs
+
+
 def flag_obligations(prog):
     obs = []
     for (fn, p, props, why) in FLAG_PARAMS:
@@ -109,7 +171,7 @@ def obligations(prog):
                               props=props_of_function(f)))
     if ncalls < 50:
         raise AnalysisBroken("R-ARGS: only %d calls with two same-named arguments found" % ncalls)
-    return obs + flag_obligations(prog), {"calls_examined": ncalls, "flag_parameters": len(FLAG_PARAMS)}
+    return obs + flag_obligations(prog) + amount_obligations(prog), {"calls_examined": ncalls, "flag_parameters": len(FLAG_PARAMS), "amount_parameters": len(AMOUNT_PARAMS)}
 
 
 if __name__ == "__main__":
